@@ -51,20 +51,20 @@ def corpus_files(lang: str | None = None):
     return out
 
 
-_SCR = None
+_SCR = {}
 
 
 def _scratch() -> Path:
-    global _SCR
-    if _SCR is None:
-        import atexit
-        import shutil
+    """One scratch directory per PROCESS (pool workers are forked and would otherwise share the parent's)."""
+    import os
 
+    pid = os.getpid()
+    if pid not in _SCR:
         from .common import scratch_dir
 
-        _SCR = scratch_dir("an")
-        atexit.register(shutil.rmtree, str(_SCR), True)
-    return _SCR
+        _SCR.clear()
+        _SCR[pid] = scratch_dir("an")  # lives under the run's scratch root, removed with it
+    return _SCR[pid]
 
 
 def file_safe(text: str) -> bool:
@@ -96,3 +96,37 @@ def analyse(lang: str, text: str, via_file: bool = True):
 
         ms = scan_file(lex(lexer_for(lang), text, False), language(lang))
     return [(m.unit_name, m.start.line, m.start.column, m.end.line, m.end.column, m.value) for m in ms]
+
+
+_HARVEST = None
+
+
+def harvested_texts():
+    """[(language, origin, text)]: every source text the repository's own tests pass to lex(), collected by running
+    the test-suite of the tree under test with the vf.pytest_harvest plugin (no repository file is touched).
+    An empty list if the suite cannot be run - the drivers then simply have fewer base texts."""
+    global _HARVEST
+    if _HARVEST is not None:
+        return _HARVEST
+    import json
+    import os
+    import subprocess
+    import sys
+
+    import codelimit
+
+    from .common import log, scratch_dir
+
+    repo = Path(codelimit.__file__).resolve().parent.parent
+    out = scratch_dir("harvest") / "texts.json"
+    env = dict(os.environ, VERIF_HARVEST_OUT=str(out), PYTHONDONTWRITEBYTECODE="1")
+    env["PYTHONPATH"] = os.pathsep.join([str(repo), str(VERIF)] + [x for x in env.get("PYTHONPATH", "").split(os.pathsep) if x])
+    _HARVEST = []
+    try:
+        subprocess.run([sys.executable, "-m", "pytest", "-q", "-x", "-p", "no:cacheprovider", "-p", "vf.pytest_harvest", "tests"], cwd=repo, env=env, capture_output=True, text=True, timeout=600)
+        for lexer_name, text in json.loads(out.read_text()):
+            if lexer_name in LANGS and text.strip():
+                _HARVEST.append((lexer_name, f"tests#{len(_HARVEST)}", text))
+    except Exception as e:  # noqa: BLE001
+        log(f"[harvest] the repository's tests could not be harvested ({type(e).__name__}: {e}); continuing without them")
+    return _HARVEST
